@@ -11,7 +11,8 @@
    (every version other than 3 is treated as Version2; Version1 is not modelled).
 
    Interface for other models:  [needle], [encode], [read_bytes]/[read_data] (decode),
-   [body_size] (n.Size), [actual_size], [padding_length], [parse_header], [scan]. *)
+   [body_size] (n.Size), [actual_size], [padding_length], [parse_header], [scan],
+   [scan_copy] (what a scan-based copy such as Volume.Compact writes). *)
 From Coq Require Import List NArith Bool.
 Import ListNotations.
 Local Open Scope N_scope.
@@ -219,8 +220,9 @@ Definition step_data (rest : list N) (d : dneedle) : step_res :=
   match rest with
   | [] => Cont [] d
   | _ =>
-      (* Go slices bytes[0:4] within the capacity of the blob; bodies of 1..3 bytes cannot be
-         produced by the writer and are outside the model: reported as SRange 0 *)
+      (* kept for the records the writer produces (body of 0 or >= 4 bytes); bodies of 1..3
+         bytes answer the artificial SRange 0 here.  [read_bytes] and [scan_from] use the
+         faithful [step_data_x] below. *)
       if len rest <? 4 then Stop d (SRange 0) else
       let ds := be_decode (takeN 4 rest) in
       let d1 := d_set_data_size d ds in
@@ -298,8 +300,42 @@ Definition and_then (r : step_res) (f : list N -> dneedle -> step_res) : step_re
 Definition read_v2 (body : list N) (d : dneedle) : step_res :=
   and_then (and_then (and_then (and_then (and_then (step_data body d) step_name) step_mime) step_lm) step_ttl) step_pairs.
 
+(* The same with the bytes that FOLLOW the body in the blob ([ext]: checksum, timestamp,
+   padding).  Go slices bytes[0:4] within the CAPACITY of the blob, so for a body of 1..3
+   bytes DataSize is read across the end of the body and the bounds check that follows
+   answers "index out of range 1".  The writer never produces such a body; a damaged or
+   foreign file can.  For bodies of 0 or >= 4 bytes [ext] is not looked at
+   (NeedleProofs.read_v2_x_eq). *)
+Definition step_data_x (ext rest : list N) (d : dneedle) : step_res :=
+  match rest with
+  | [] => Cont [] d
+  | _ =>
+      let ds := be_decode (takeN 4 (rest ++ ext)) in
+      let d1 := d_set_data_size d ds in
+      let r1 := dropN 4 rest in
+      if (len rest <? 4) || (len r1 <? ds) then Stop d1 (SRange 1) else
+      let d2 := d_upd d1 (fun n => n_set_data n (takeN ds r1)) in
+      match dropN ds r1 with
+      | [] => Stop d2 SPanic
+      | f :: r2 => Cont r2 (d_upd d2 (fun n => n_set_flags n f))
+      end
+  end.
+
+Definition read_v2_x (ext body : list N) (d : dneedle) : step_res :=
+  and_then (and_then (and_then (and_then (and_then (step_data_x ext body d) step_name) step_mime) step_lm) step_ttl) step_pairs.
+
+(* what ReadNeedleBodyBytes leaves in the needle: an error return keeps what was decoded so
+   far, the run-time panic (SPanic) does not return *)
+Definition body_result (r : step_res) : option dneedle :=
+  match r with
+  | Stop _ SPanic => None
+  | Stop d _ => Some d
+  | Cont _ d => Some d
+  end.
+
 Section WithCrc.
-  (* oracle: NewCRC(b), i.e. CRC32-Castagnoli of the byte string (github.com/klauspost/crc32) *)
+  (* oracle: NewCRC(b), i.e. CRC32-Castagnoli of the byte string (github.com/klauspost/crc32);
+     model/NeedleCrc.v defines it ([crc32c]), the statements here hold for any function *)
   Variable crc : list N -> N.
 
   (* Needle.ReadBytes(bytes, offset, size, version); [size] is the size the caller expects
@@ -308,7 +344,7 @@ Section WithCrc.
     let '(c, i, hs) := parse_header bs in
     let d0 := header_needle c i hs in
     if negb (hs =? size) then (d0, SSizeMismatch) else
-    match read_v2 (takeN hs (dropN NeedleHeaderSize bs)) d0 with
+    match read_v2_x (dropN (NeedleHeaderSize + hs) bs) (takeN hs (dropN NeedleHeaderSize bs)) d0 with
     | Stop d s => (d, s)
     | Cont _ d1 =>
         let tl := dropN (NeedleHeaderSize + size) bs in
@@ -341,15 +377,62 @@ Section WithCrc.
         (* ReadNeedleBody: a short read is logged and ignored; the needle is visited with
            its header only and the next header read hits the end of the file *)
         if len body <? bl then [(d0, off)] else
-        (* ReadNeedleBodyBytes: the error of readNeedleDataVersion2 is only logged *)
-        let d1 := match read_v2 (takeN hs body) d0 with Stop d _ => d | Cont _ d => d end in
+        (* ReadNeedleBodyBytes: the error of readNeedleDataVersion2 is only logged; its
+           run-time panic (n.Flags = bytes[index] at the end of the body) leaves
+           ScanVolumeFileFrom: that record and everything behind it is not visited *)
+        match body_result (read_v2_x (dropN hs body) (takeN hs body) d0) with
+        | None => []
+        | Some d1 =>
         let d2 := d_upd d1 (fun n => n_set_checksum n (crc (data (d_n d1)))) in
         let d3 := if v =? 3 then d_upd d2 (fun n => n_set_append n (be_decode (takeN 8 (dropN (hs + NeedleChecksumSize) body)))) else d2 in
         (d3, off) :: scan_from fuel' v (dropN (NeedleHeaderSize + bl) rest) (off + NeedleHeaderSize + bl)
+        end
     end.
 
   Definition scan (v : N) (file : list N) (off : N) : list (dneedle * N) :=
     scan_from (length file) v (dropN off file) off.
+
+  (* does the scan end in that panic? (same walk) *)
+  Fixpoint scan_panics_from (fuel : nat) (v : N) (rest : list N) : bool :=
+    match fuel with
+    | O => false
+    | S fuel' =>
+        if len rest <? NeedleHeaderSize then false else
+        let '(c, i, hs) := parse_header rest in
+        let bl := body_length hs v in
+        let body := takeN bl (dropN NeedleHeaderSize rest) in
+        if len body <? bl then false else
+        match body_result (read_v2_x (dropN hs body) (takeN hs body) (header_needle c i hs)) with
+        | None => true
+        | Some _ => scan_panics_from fuel' v (dropN (NeedleHeaderSize + bl) rest)
+        end
+    end.
+
+  Definition scan_panics (v : N) (file : list N) (off : N) : bool :=
+    scan_panics_from (length file) v (dropN off file).
+
+  (* The scan-based copy (Volume.Compact: ScanVolumeFile with VolumeFileScanner4Vacuum, and
+     any other visitor that re-appends what it is handed): every visited needle is written
+     again with Needle.Append.  The needle-map and TTL filters of the vacuum visitor are not
+     part of this model (they belong to C04): every visit is copied.  Per visit VisitNeedle
+     records (new offset, n.Size as read from the old header) in the new index BEFORE Append
+     recomputes n.Size, then advances by DiskSize of the recomputed size. *)
+  Fixpoint copy_entries (v : N) (vs : list (dneedle * N)) (noff : N) : list (N * N) :=
+    match vs with
+    | [] => []
+    | (d, _) :: vs' => (noff, d_size d) :: copy_entries v vs' (noff + actual_size (body_size (d_n d)) v)
+    end.
+
+  Definition copy_bytes (v : N) (vs : list (dneedle * N)) : list N :=
+    concat (map (fun p => encode v (d_n (fst p))) vs).
+
+  (* [npre]: what the copy starts with (the super block with its compaction revision
+     incremented); the records follow *)
+  Definition scan_copy (v : N) (npre file : list N) (off : N) : list N :=
+    npre ++ copy_bytes v (scan v file off).
+
+  Definition scan_copy_index (v : N) (npre file : list N) (off : N) : list (N * N) :=
+    copy_entries v (scan v file off) (len npre).
 End WithCrc.
 
 (* ---------- what a reader is entitled to get back ---------- *)
